@@ -118,6 +118,49 @@ func (g *vlGates) releaseAll(pass bool) {
 // vrGate is set by the router harness while it runs (router gates have their own scheduler).
 var vrGate func(point, id string)
 
+// ---- keepalive under schedule control -----------------------------------------------------------
+// The etcd client's lessor sends its first keepalive up to 500 ms after KeepAlive() and then every TTL/3; a
+// revoked lease is noticed at whatever real time the next keepalive happens to go out.  To keep replays free
+// of wall-clock races the managers' clients carry a wrapped clientv3.Lease: Grant / Revoke / everything else
+// go to etcd unchanged, KeepAlive returns a channel that is closed (a) when the session's context ends
+// (Session.Orphan / Close, as the real lessor does) or (b) by the schedule's SessDone step = "the keepalive
+// loop found the lease gone".  No keepalives are sent; leases have a TTL of 600 s.
+type vlLease struct {
+	clientv3.Lease
+	mu    sync.Mutex
+	chans map[clientv3.LeaseID]chan *clientv3.LeaseKeepAliveResponse
+}
+
+func (w *vlLease) KeepAlive(ctx context.Context, id clientv3.LeaseID) (<-chan *clientv3.LeaseKeepAliveResponse, error) {
+	ch := make(chan *clientv3.LeaseKeepAliveResponse)
+	w.mu.Lock()
+	w.chans[id] = ch
+	w.mu.Unlock()
+	go func() {
+		<-ctx.Done()
+		w.closeKA(id)
+	}()
+	return ch, nil
+}
+
+func (w *vlLease) closeKA(id clientv3.LeaseID) {
+	w.mu.Lock()
+	if ch, ok := w.chans[id]; ok {
+		close(ch)
+		delete(w.chans, id)
+	}
+	w.mu.Unlock()
+}
+
+func (w *vlLease) closeAll() {
+	w.mu.Lock()
+	for id, ch := range w.chans {
+		close(ch)
+		delete(w.chans, id)
+	}
+	w.mu.Unlock()
+}
+
 // ---- one schedule ----------------------------------------------------------------------------
 
 type vlBroker struct {
@@ -128,6 +171,7 @@ type vlBroker struct {
 	gm     *GroupLeaseManager
 	ops    map[string]chan error // "acq|r" / "rel|r" -> completion
 	dead   bool
+	lease  *vlLease
 }
 
 type vlRun struct {
@@ -176,6 +220,8 @@ func (r *vlRun) newBroker(id string) *vlBroker {
 		r.t.Fatalf("etcd client: %v", err)
 	}
 	b := &vlBroker{id: id, client: cli, ops: map[string]chan error{}}
+	b.lease = &vlLease{Lease: cli.Lease, chans: map[clientv3.LeaseID]chan *clientv3.LeaseKeepAliveResponse{}}
+	cli.Lease = b.lease
 	if r.kind == "group" {
 		b.gm = NewGroupLeaseManager(cli, GroupLeaseConfig{BrokerID: id, LeaseTTLSeconds: 600})
 		b.lm = b.gm.lm
@@ -502,14 +548,14 @@ func (r *vlRun) step(i int, st vlStep) {
 			return
 		}
 	case "SessDone":
-		// the keepalive loop ends: closing the keepalive stream of the session is what a lost lease does to it
+		// the keepalive loop ends: the lessor closes the session's keepalive channel, which is what a lost lease does to it
 		s := r.sessionOf(b)
 		if s == nil {
 			r.abort(i, st, "manager has no session")
 			return
 		}
 		line["l"] = r.modelLease(s.Lease())
-		s.Orphan()
+		b.lease.closeKA(s.Lease())
 		mid := vlMonID(b.id, s.Lease())
 		if _, ok := r.wait(vlLong, func(e vlEvent) bool { return e.kind == "arrive" && e.point == "lease.monitor" && e.id == mid }); !ok {
 			r.t.Fatalf("step %d %v: monitorSession did not reach its gate", i, st)
@@ -583,6 +629,7 @@ func (r *vlRun) crash(b *vlBroker) {
 	}
 	vlG.mu.Unlock()
 	_ = b.client.Close()
+	b.lease.closeAll()
 	b.dead = true
 	b.ops = map[string]chan error{}
 	if s != nil { // the keepalive loop dies with the client; let the dead manager's monitorSession finish
@@ -621,6 +668,7 @@ func (r *vlRun) finish() {
 	}
 	for _, b := range r.brokers {
 		_ = b.client.Close()
+		b.lease.closeAll()
 	}
 	for _, l := range r.leases {
 		ctx, cancel := context.WithTimeout(context.Background(), 20*time.Second)
